@@ -349,53 +349,77 @@ def containsTime (s : String) : Bool := containsCall timeTargets s.toList
 def containsRandom (s : String) : Bool := containsCall randTargets s.toList
 
 /-! ### splitting a statement text into its statements (`splitStatements`)
-The text is cut at the semicolons which end its statements; the semicolons inside the body of a
-CREATE [TEMP] TRIGGER statement (BEGIN … END, where CASE … END may nest) do not end it; empty
-statements are dropped. Tokens are what the scanner yields (comments skipped). -/
+The text is cut at its semicolon TOKENS (the scanner's: not those inside strings, quoted identifiers
+or comments) into pieces. A statement is the SHORTEST run of consecutive pieces, joined by their
+semicolons, which the parser accepts as one statement (so the body of a CREATE TRIGGER statement is
+found without any knowledge of its syntax here). A piece no run starting at which is accepted is
+kept as it is, and the search goes on after it. Empty pieces between statements are skipped.
+The parser is a PARAMETER: `accepts`. No token other than the semicolon has a meaning here.
+(The code does not try the runs one by one: it lets the parser read one statement from the start of
+the piece and looks where it stopped; the correspondence run compares the two.) -/
 
 inductive Tok where
-  | semi | create | temp | trigger | begin_ | case_ | end_ | other
+  | semi
+  | word (id : Nat)      -- any other token; the number stands for its kind and spelling
 deriving Repr, DecidableEq
 
-/-- where in a statement the scan is -/
-inductive Mode where
-  | atStart | afterCreate | ordinary | triggerHead
-  | triggerBody (depth : Nat)
+/-- what lies between the semicolons (never the empty list: a text without semicolon is one piece) -/
+def pieces : List Tok → List (List Tok)
+  | [] => [[]]
+  | .semi :: rest => [] :: pieces rest
+  | .word i :: rest =>
+    match pieces rest with
+    | p :: ps => (.word i :: p) :: ps
+    | [] => [[.word i]]
+
+/-- pieces put together again, with the semicolons between them -/
+def joinSemi : List (List Tok) → List Tok
+  | [] => []
+  | [p] => p
+  | p :: q :: r => p ++ .semi :: joinSemi (q :: r)
+
+/-- a part of the text after splitting -/
+inductive Seg where
+  | stmt (run : List (List Tok))   -- a statement, as the pieces it is made of
+  | raw (p : List Tok)             -- a piece at which no accepted statement starts
 deriving Repr, DecidableEq
 
-/-- one token: the mode afterwards, and whether the token ENDS the statement -/
-def splitStep : Mode → Tok → Mode × Bool
-  | .triggerBody d, .case_ => (.triggerBody (d + 1), false)
-  | .triggerBody d, .end_ => (if d ≤ 1 then .ordinary else .triggerBody (d - 1), false)
-  | .triggerBody d, _ => (.triggerBody d, false)
-  | .triggerHead, .begin_ => (.triggerBody 1, false)
-  | .triggerHead, .semi => (.atStart, true)
-  | .triggerHead, _ => (.triggerHead, false)
-  | .atStart, .create => (.afterCreate, false)
-  | .atStart, .semi => (.atStart, true)
-  | .atStart, _ => (.ordinary, false)
-  | .afterCreate, .temp => (.afterCreate, false)
-  | .afterCreate, .trigger => (.triggerHead, false)
-  | .afterCreate, .semi => (.atStart, true)
-  | .afterCreate, _ => (.ordinary, false)
-  | .ordinary, .semi => (.atStart, true)
-  | .ordinary, _ => (.ordinary, false)
+def Seg.pieces : Seg → List (List Tok)
+  | .stmt run => run
+  | .raw p => [p]
 
-def emit (cur : List Tok) : List (List Tok) := if cur.isEmpty then [] else [cur]
+def Seg.toks (s : Seg) : List Tok := joinSemi s.pieces
 
-def splitAux : Mode → List Tok → List Tok → List (List Tok)
-  | _, cur, [] => emit cur
-  | m, cur, t :: rest =>
-    if (splitStep m t).2 then emit cur ++ splitAux (splitStep m t).1 [] rest
-    else splitAux (splitStep m t).1 (cur ++ [t]) rest
+/-- the length of the shortest accepted run `done ++ first pieces of the list` (with at least one of
+the latter), if there is one -/
+def runLen (accepts : List Tok → Bool) (done : List (List Tok)) : List (List Tok) → Option Nat
+  | [] => none
+  | p :: rest =>
+    if accepts (joinSemi (done ++ [p])) then some (done.length + 1)
+    else runLen accepts (done ++ [p]) rest
+
+def groupF (accepts : List Tok → Bool) : Nat → List (List Tok) → List Seg
+  | 0, _ => []
+  | _ + 1, [] => []
+  | fuel + 1, p :: rest =>
+    if p.isEmpty then groupF accepts fuel rest
+    else
+      match runLen accepts [] (p :: rest) with
+      | some n => .stmt (p :: rest.take (n - 1)) :: groupF accepts fuel (rest.drop (n - 1))
+      | none => .raw p :: groupF accepts fuel rest
+
+/-- the pieces grouped into statements -/
+def group (accepts : List Tok → Bool) (ps : List (List Tok)) : List Seg := groupF accepts ps.length ps
 
 /-- `splitStatements`, on the token level -/
-def splitToks (ts : List Tok) : List (List Tok) := splitAux .atStart [] ts
+def splitToks (accepts : List Tok → Bool) (ts : List Tok) : List Seg := group accepts (pieces ts)
 
 /-! ### line protocol
 `rw <rwRand 0|1> <rwTime 0|1> <tree>` → `<modified 0|1> <returning 0|1> <tree>`
 `filter <hex lowered text>` → `<containsTime> <containsRandom>`
-`split <letters>` → the statements, `|`-separated (letters: s `;`, c CREATE, m TEMP, t TRIGGER, b BEGIN, k CASE, e END, o other; `-` none)
+`split <toks> <accepted>` → the parts, `|`-separated: `S:<toks>` a statement, `R:<toks>` a piece kept as it is; `-` none.
+  `<toks>`: tokens separated by `.`, `s` the semicolon, a number any other token (same number = same kind and
+  spelling), `-` no token; `<accepted>`: the token lists the parser accepts, `|`-separated, `-` none.
 tree tokens (prefix): `C <hexname> <nargs> <nextra> kids…`, `L <kind> <hexval>`, `I <hexname>`,
 `O <n> kids…`, `R <n> kids…`, `N <tag> <n> kids…`. `rand k` = 1000 + k, the clock reading prints as `0`. -/
 
@@ -467,19 +491,22 @@ def step (d : DState) (line : String) : DState × String :=
       let (n', st) := rewrite (driverCfg r t) n
       (d, " ".intercalate ([boolStr st.modified, boolStr st.returning] ++ printNode n'))
     | _, _, _ => (d, "bad-op")
-  | ["split", ls] =>
-    let toTok (ch : Char) : Option Tok :=
-      if ch == 's' then some .semi else if ch == 'c' then some .create else if ch == 'm' then some .temp
-      else if ch == 't' then some .trigger else if ch == 'b' then some .begin_ else if ch == 'k' then some .case_
-      else if ch == 'e' then some .end_ else if ch == 'o' then some .other else none
-    let toCh : Tok → Char
-      | .semi => 's' | .create => 'c' | .temp => 'm' | .trigger => 't' | .begin_ => 'b' | .case_ => 'k'
-      | .end_ => 'e' | .other => 'o'
-    match (if ls == "-" then some [] else ls.toList.mapM toTok) with
-    | some toks =>
-      let segs := splitToks toks
-      (d, if segs.isEmpty then "-" else "|".intercalate (segs.map fun sg => String.ofList (sg.map toCh)))
-    | none => (d, "bad-op")
+  | ["split", ts, acc] =>
+    let toTok (w : String) : Option Tok :=
+      if w == "s" then some .semi else w.toNat?.map .word
+    let toToks (l : String) : Option (List Tok) := if l == "-" then some [] else (l.splitOn ".").mapM toTok
+    let tokStr : Tok → String
+      | .semi => "s"
+      | .word i => toString i
+    let toksStr (l : List Tok) : String := if l.isEmpty then "-" else ".".intercalate (l.map tokStr)
+    match toToks ts, (if acc == "-" then some [] else (acc.splitOn "|").mapM toToks) with
+    | some toks, some accepted =>
+      let segs := splitToks (fun l => accepted.contains l) toks
+      (d, if segs.isEmpty then "-" else "|".intercalate (segs.map fun sg =>
+        match sg with
+        | .stmt _ => "S:" ++ toksStr sg.toks
+        | .raw _ => "R:" ++ toksStr sg.toks))
+    | _, _ => (d, "bad-op")
   | ["filter", h] =>
     match tokString h with
     | some s => (d, boolStr (containsTime s) ++ " " ++ boolStr (containsRandom s))
